@@ -879,10 +879,11 @@ func (c *cluster) partitionNodes(partitionID int) []*Node {
 	// Default replica count to between one and the number of nodes.
 	// The replica count can be zero if there are no nodes.
 	replicaN := c.ReplicaN
+	if replicaN == 0 {
+		replicaN = 1
+	}
 	if replicaN > len(c.nodes) {
 		replicaN = len(c.nodes)
-	} else if replicaN == 0 {
-		replicaN = 1
 	}
 
 	// Determine primary owner node.
